@@ -143,3 +143,30 @@ Inductive settles (qs : list queue) : list positive -> positive -> Prop :=
 (** a full pass reconciles every queue at least once, in any order *)
 Definition full_pass (qs : list queue) (pass : list positive) : Prop :=
   forall q, In q qs -> In (q_name q) pass.
+
+(** * Worlds: the truth recomputed from pods and CURRENT preemptibility *)
+
+(** what pod group [g] must report *)
+Definition wg_truth (classes : list prioclass) (g : wgroup) : rstatus :=
+  true_pg_status (current_preemptible classes (wg_pg g)) (wg_pods g).
+
+Definition wg_in_subtree (qs : list queue) (a : positive) (g : wgroup) : bool :=
+  match wg_queue g with Some m => in_subtree qs a m | None => false end.
+
+(** what queue [a] must report: the sums, over every pod group whose queue lies
+    in [a]'s subtree, of the group's pods by phase and by the group's current
+    preemptibility (no stored status is consulted) *)
+Definition w_truth (w : world) (a : positive) : rstatus :=
+  rsum (map (wg_truth (w_classes w)) (filter (wg_in_subtree (w_queues w) a) (w_groups w))).
+
+(** a pass that reconciles every pod group and every queue at least once *)
+Definition w_full_pass (w : world) (pass : list wevent) : Prop :=
+  (forall i, (i < length (w_groups w))%nat -> In (WRecGroup i) pass)
+  /\ (forall q, In q (w_queues w) -> In (WRecQueue (q_name q)) pass).
+
+(** all four reported aggregates of a queue equal the truth *)
+Definition queue_reports_truth (w : world) (q : queue) : Prop :=
+  s_alloc (q_status q) = s_alloc (w_truth w (q_name q))
+  /\ s_anp (q_status q) = s_anp (w_truth w (q_name q))
+  /\ s_req (q_status q) = s_req (w_truth w (q_name q))
+  /\ q_children q = child_names (q_name q) (w_queues w).
